@@ -189,7 +189,28 @@ func runImport(w *out.W, tier, outDir string) {
 			}
 		}
 		sort.Strings(srcNames)
-		w.ImplOnly(c.id, fmt.Sprintf("%s src=%v exit=%d dst=%v", c.desc, srcNames, res.Exit, dstNames))
+		// observation for the model (FmtImportModel.import_dir): the files of the target directory
+		{
+			var fn []string
+			for nme := range c.files {
+				fn = append(fn, nme)
+			}
+			sort.Strings(fn)
+			toks := []string{c.fm.name, fmt.Sprint(len(fn))}
+			for _, nme := range fn {
+				toks = append(toks, hx(nme), hx(c.files[nme]))
+			}
+			obs := "imp err"
+			if res.Exit == 0 {
+				dd, _ := migrate.NewLocalDir(dst)
+				ff, _ := dd.Files()
+				obs = fmt.Sprintf("imp ok %d", len(ff))
+				for _, f := range ff {
+					obs += " " + hx(f.Name()) + "=" + hx(string(f.Bytes()))
+				}
+			}
+			w.Case(c.id, strings.Join(toks, " "), []string{obs})
+		}
 		switch {
 		case serr != nil:
 			w.Count("import:source-unreadable")
